@@ -1,5 +1,6 @@
 import Quanto.Wire
 import Quanto.Spec.C01
+import Quanto.Spec.C04
 open Quanto
 
 /-- scalar-or-per-element lookup -/
@@ -66,6 +67,31 @@ def handle (toks : List String) : String :=
       let cs := ((parseIntList cb).map (parseCode Q)).toArray
       let c2 := ((parseIntList c2b).map (parseCode Q)).toArray
       firstFails ((List.range cs.size).map fun i => (specC01Idem F (pick ss i) cs[i]! c2[i]!).name)
+  -- C04
+  | ["pack", bits, shape, data] =>
+      let t : T Nat := ⟨parseShape shape, (parseNatList data).toArray⟩
+      let p := packWeights bits.toNat! t
+      s!"{showShape p.shape} {showNatList p.data.toList}"
+  | ["unpack", kind, bits, shape, data] =>
+      let p : T Nat := ⟨parseShape shape, (parseNatList data).toArray⟩
+      let r := match kind with
+        | "py" => unpackPy bits.toNat! p
+        | "cpp" => unpackCpp bits.toNat! p
+        | "routed-ext" => quantoUnpack true .returns bits.toNat! p
+        | "routed-fallback" => quantoUnpack true .raises bits.toNat! p
+        | _ => quantoUnpack false .returns bits.toNat! p
+      s!"{showShape r.shape} {showNatList r.data.toList}"
+  | ["punpack", bits, size, pshape, data] =>
+      let p : Packed := ⟨bits.toNat!, parseShape size, ⟨parseShape pshape, (parseNatList data).toArray⟩⟩
+      let r := p.unpack
+      s!"{showShape r.shape} {showNatList r.data.toList}"
+  -- spec04 bits oshape odata pshape pdata ushape udata nroutes (rshape rdata)*
+  | "spec04" :: bits :: os :: od :: ps :: pd :: us :: ud :: rest =>
+      let mk (sh d : String) : T Nat := ⟨parseShape sh, (parseNatList d).toArray⟩
+      let rec routes : List String → List (T Nat)
+        | a :: b :: r => mk a b :: routes r
+        | _ => []
+      (specC04 bits.toNat! (mk os od) (mk ps pd) (mk us ud) (routes rest)).name
   | _ => "bad-op"
 
 partial def loop (h : IO.FS.Stream) (out : IO.FS.Stream) : IO Unit := do
